@@ -42,103 +42,106 @@ Section Vertical.
     phis + geo_diff_dense (cK c) (cR c) (cls c) T j.
 End Vertical.
 
-(** ** Horizontal calculus and the pointwise equations *)
+(** ** Horizontal calculus and the equations in the ring of smooth nodal fields.
+    The carrier [F] of this section is the commutative RING OF FIELDS on the sphere
+    (its elements are whole fields, not values; products are pointwise products of
+    fields); [dlon], [dmu] are its two derivations, [mu] the field sin(lat), the radius
+    [a] and all physical constants are constant fields.  [x / y] is [x * finv y]; the
+    theorems only use it for the units [a], [two] and [cos2]. *)
 Section Spec.
   Context {F : Type} {o : Ops F}.
-  Variable P : Type.
-  Notation fld := (P -> F).
-  Variables dlon dmu : fld -> fld.
-  Variable mu : fld.                 (* sin(lat) *)
+  Variables dlon dmu : F -> F.
+  Variable mu : F.                   (* sin(lat) *)
   Variable a : F.                    (* radius *)
 
-  Definition cos2 : fld := fun p => 1 - mu p * mu p.
-  Definition sec2 : fld := fun p => 1 / cos2 p.
+  Definition cos2 : F := 1 - mu * mu.
+  Definition sec2 : F := 1 / cos2.
   (** cos(lat) * gradient *)
-  Definition grad_x (f : fld) : fld := fun p => dlon f p / a.
-  Definition grad_y (f : fld) : fld := fun p => dmu f p / a.
+  Definition grad_x (f : F) : F := dlon f / a.
+  Definition grad_y (f : F) : F := dmu f / a.
   (** divergence and vertical curl of the tangent vector (A, B) / cos(lat) *)
-  Definition sdiv (A B : fld) : fld := fun p => sec2 p * (dlon A p + dmu B p) / a.
-  Definition scurl (A B : fld) : fld := fun p => sec2 p * (dlon B p - dmu A p) / a.
-  Definition slap (f : fld) : fld := sdiv (grad_x f) (grad_y f).
+  Definition sdiv (A B : F) : F := sec2 * (dlon A + dmu B) / a.
+  Definition scurl (A B : F) : F := sec2 * (dlon B - dmu A) / a.
+  Definition slap (f : F) : F := sdiv (grad_x f) (grad_y f).
   (** cos(lat) * velocity from stream function and velocity potential *)
-  Definition vel_u (psi chi : fld) : fld := fun p => grad_x chi p - grad_y psi p.
-  Definition vel_v (psi chi : fld) : fld := fun p => grad_y chi p + grad_x psi p.
-  Definition kin (U V : fld) : fld := fun p => sec2 p * (U p * U p + V p * V p) / two.
+  Definition vel_u (psi chi : F) : F := grad_x chi - grad_y psi.
+  Definition vel_v (psi chi : F) : F := grad_y chi + grad_x psi.
+  Definition kin (U V : F) : F := sec2 * (U * U + V * V) / two.
 
   (** *** primitive equations *)
   Record PEState := mkPES {
-    st_psi : nat -> fld; st_chi : nat -> fld;   (* stream function, velocity potential *)
-    st_T : nat -> fld;                          (* absolute temperature *)
-    st_lnps : fld;
-    st_q : nat -> fld }.                        (* specific humidity (0 for the dry equations) *)
+    st_psi : nat -> F; st_chi : nat -> F;       (* stream function, velocity potential *)
+    st_T : nat -> F;                            (* absolute temperature *)
+    st_lnps : F;
+    st_q : nat -> F }.                          (* specific humidity (0 for the dry equations) *)
 
   Section PE.
   Variable c : @PEcfg F.
   Variables Omega grav Rv Cpv : F.
-  Variable oro : fld.
+  Variable oro : F.
   Variable st : PEState.
 
   Definition U k := vel_u (st_psi st k) (st_chi st k).
   Definition V k := vel_v (st_psi st k) (st_chi st k).
   Definition zeta k := slap (st_psi st k).
   Definition delta k := slap (st_chi st k).
-  Definition fcor : fld := fun p => two * Omega * mu p.
+  Definition fcor : F := two * Omega * mu.
   Definition gx := grad_x (st_lnps st).
   Definition gy := grad_y (st_lnps st).
   (** u . grad ln ps *)
-  Definition ugrad k : fld := fun p => sec2 p * (U k p * gx p + V k p * gy p).
-  Definition gfull k : fld := fun p => delta k p + ugrad k p.
-  Definition sdot (p : P) : nat -> F := spec_sigma_dot c (fun k => gfull k p).
+  Definition ugrad k : F := sec2 * (U k * gx + V k * gy).
+  Definition gfull k : F := delta k + ugrad k.
+  Definition sdot : nat -> F := spec_sigma_dot c gfull.
   (** virtual temperature and the moist adiabatic factor *)
-  Definition Tv k : fld := fun p => st_T st k p * (1 + (Rv / cR c - 1) * st_q st k p).
-  Definition afac k : fld := fun p =>
-    (1 + (Rv / cR c - 1) * st_q st k p) / (1 + (Cpv / (cR c / ckappa c) - 1) * st_q st k p).
+  Definition Tv k : F := st_T st k * (1 + (Rv / cR c - 1) * st_q st k).
+  Definition afac k : F :=
+    (1 + (Rv / cR c - 1) * st_q st k) / (1 + (Cpv / (cR c / ckappa c) - 1) * st_q st k).
   (** cos(lat) * [ (zeta+f) k x v + sigma_dot dv/dsigma + R Tv grad ln ps ] *)
-  Definition mom_u k : fld := fun p =>
-    - V k p * (zeta k p + fcor p) - spec_vadv c (sdot p) (fun j => U j p) k + cR c * Tv k p * gx p.
-  Definition mom_v k : fld := fun p =>
-    U k p * (zeta k p + fcor p) - spec_vadv c (sdot p) (fun j => V j p) k + cR c * Tv k p * gy p.
-  Definition phi k : fld := fun p => spec_phi c (grav * oro p) (fun j => Tv j p) k.
-  Definition energy k : fld := fun p => kin (U k) (V k) p + phi k p.
+  Definition mom_u k : F :=
+    - V k * (zeta k + fcor) - spec_vadv c sdot U k + cR c * Tv k * gx.
+  Definition mom_v k : F :=
+    U k * (zeta k + fcor) - spec_vadv c sdot V k + cR c * Tv k * gy.
+  Definition phi k : F := spec_phi c (grav * oro) Tv k.
+  Definition energy k : F := kin (U k) (V k) + phi k.
 
-  Definition spec_vort_tend k : fld := fun p => - scurl (mom_u k) (mom_v k) p.
-  Definition spec_div_tend k : fld := fun p => - sdiv (mom_u k) (mom_v k) p - slap (energy k) p.
-  Definition spec_temp_tend k : fld := fun p =>
-    - (sec2 p * (U k p * dlon (st_T st k) p + V k p * dmu (st_T st k) p) / a)
-    + spec_vadv c (sdot p) (fun j => st_T st j p) k
-    + ckappa c * (st_T st k p * afac k p * spec_omega_p c (fun j => gfull j p) (fun j => ugrad j p) k).
-  Definition spec_lnps_tend : fld := fun p =>
-    - sumn (cK c) (fun k => gfull k p * thickness (cb c) k).
-  Definition spec_tracer_tend (X : nat -> fld) k : fld := fun p =>
-    - (sec2 p * (U k p * dlon (X k) p + V k p * dmu (X k) p) / a)
-    + spec_vadv c (sdot p) (fun j => X j p) k.
+  Definition spec_vort_tend k : F := - scurl (mom_u k) (mom_v k).
+  Definition spec_div_tend k : F := - sdiv (mom_u k) (mom_v k) - slap (energy k).
+  Definition spec_temp_tend k : F :=
+    - (sec2 * (U k * dlon (st_T st k) + V k * dmu (st_T st k)) / a)
+    + spec_vadv c sdot (st_T st) k
+    + ckappa c * (st_T st k * afac k * spec_omega_p c gfull ugrad k).
+  Definition spec_lnps_tend : F :=
+    - sumn (cK c) (fun k => gfull k * thickness (cb c) k).
+  Definition spec_tracer_tend (X : nat -> F) k : F :=
+    - (sec2 * (U k * dlon (X k) + V k * dmu (X k)) / a)
+    + spec_vadv c sdot X k.
   End PE.
 
   (** *** layered shallow water; [Rm i j] = weight of the potential of layer j in
-      the pressure of layer i (1 on and below the diagonal side of denser layers,
+      the pressure of layer i (1 for the layer itself and the denser layers below,
       rho_j / rho_i for lighter layers above), [ref] the mean potentials *)
-  Record SWState := mkSWS { w_psi : nat -> fld; w_chi : nat -> fld; w_pot : nat -> fld }.
+  Record SWState := mkSWS { w_psi : nat -> F; w_chi : nat -> F; w_pot : nat -> F }.
 
   Section SW.
   Variable Kl : nat.
   Variable Rm : nat -> nat -> F.
   Variable ref : nat -> F.
   Variable Omega : F.
-  Variable oro : fld.
+  Variable oro : F.
   Variable st : SWState.
 
   Definition wU i := vel_u (w_psi st i) (w_chi st i).
   Definition wV i := vel_v (w_psi st i) (w_chi st i).
   Definition wzeta i := slap (w_psi st i).
-  Definition wabs i : fld := fun p => wzeta i p + two * Omega * mu p.
-  Definition wflux_u i : fld := fun p => wU i p * wabs i p.
-  Definition wflux_v i : fld := fun p => wV i p * wabs i p.
-  Definition wpress i : fld := fun p => sumn Kl (fun j => Rm i j * w_pot st j p) + oro p.
-  Definition sw_vort_tend i : fld := fun p => - sdiv (wflux_u i) (wflux_v i) p.
-  Definition sw_div_tend i : fld := fun p =>
-    scurl (wflux_u i) (wflux_v i) p - slap (fun p' => wpress i p' + kin (wU i) (wV i) p') p.
-  Definition sw_pot_tend i : fld := fun p =>
-    - sdiv (fun p' => wU i p' * (ref i + w_pot st i p')) (fun p' => wV i p' * (ref i + w_pot st i p')) p.
+  Definition wabs i : F := wzeta i + two * Omega * mu.
+  Definition wflux_u i : F := wU i * wabs i.
+  Definition wflux_v i : F := wV i * wabs i.
+  Definition wpress i : F := sumn Kl (fun j => Rm i j * w_pot st j) + oro.
+  Definition sw_vort_tend i : F := - sdiv (wflux_u i) (wflux_v i).
+  Definition sw_div_tend i : F :=
+    scurl (wflux_u i) (wflux_v i) - slap (wpress i + kin (wU i) (wV i)).
+  Definition sw_pot_tend i : F :=
+    - sdiv (wU i * (ref i + w_pot st i)) (wV i * (ref i + w_pot st i)).
   End SW.
 
   (** polynomials in mu (coefficient list, increasing degree) and the value of their formal derivative
